@@ -141,6 +141,12 @@ func reference(kind string) string {
 		return "reg.example/repo:v1@" + artDigest.String()
 	case "mismatch":
 		return "reg.example/repo@" + otherDigest.String()
+	case "mismatch-tagdigest":
+		return "reg.example/repo:v1@" + otherDigest.String()
+	case "mismatch-sha512": // a digest of the artifact's own bytes under another algorithm is still not the resolved digest
+		return "reg.example/repo@" + digest.SHA512.FromString("artifact").String()
+	case "mismatch-sha384":
+		return "reg.example/repo:v1@" + digest.SHA384.FromString("something else").String()
 	case "noref":
 		return "reg.example/repo"
 	case "malformed":
@@ -149,9 +155,11 @@ func reference(kind string) string {
 	panic(kind)
 }
 
+func isMismatch(ref string) bool { return strings.HasPrefix(ref, "mismatch") }
+
 // model: index of the signature that must be reported, or -1 for failure.
 func model(c Case) int {
-	if c.N <= 0 || c.Ref == "mismatch" || c.Ref == "noref" || c.Ref == "malformed" {
+	if c.N <= 0 || isMismatch(c.Ref) || c.Ref == "noref" || c.Ref == "malformed" {
 		return -1
 	}
 	lim := c.N
@@ -241,7 +249,7 @@ func check(c Case, withSkipper bool) (string, string) {
 		}
 		return "", ""
 	}
-	if c.Ref == "mismatch" {
+	if isMismatch(c.Ref) {
 		if err == nil {
 			return "C10:digest-mismatch-accepted", "a digest reference differing from the resolved digest succeeded"
 		}
@@ -307,7 +315,7 @@ func classes(c Case, want int) []string {
 		}
 	default:
 		cl = append(cl, "failure")
-		if strings.Contains(c.Status, "v") && c.Ref != "mismatch" && c.Ref != "noref" && c.Ref != "malformed" && !c.Skip {
+		if strings.Contains(c.Status, "v") && !isMismatch(c.Ref) && c.Ref != "noref" && c.Ref != "malformed" && !c.Skip {
 			cl = append(cl, "valid-beyond-limit-or-unfetchable")
 		}
 	}
@@ -397,7 +405,7 @@ func TestC10_Enum(t *testing.T) {
 				}
 			}
 			// references that must fail before listing, and the skip level
-			for _, ref := range []string{"mismatch", "noref", "malformed"} {
+			for _, ref := range []string{"mismatch", "mismatch-tagdigest", "mismatch-sha512", "mismatch-sha384", "noref", "malformed"} {
 				for _, n := range []int{0, 1, maxK + 1} {
 					c := Case{Status: string(st), Pages: comps[0], N: n, Ref: ref}
 					record(rec, c)
@@ -441,7 +449,7 @@ func TestC10_Random(t *testing.T) {
 		}
 		c := Case{Status: string(st), Pages: pages,
 			N:    rapid.IntRange(-2, 14).Draw(rt, "n"),
-			Ref:  rp.Pick(rt, "ref", "tag", "digest", "tagdigest", "tag", "digest", "mismatch", "noref", "malformed"),
+			Ref:  rp.Pick(rt, "ref", "tag", "digest", "tagdigest", "tag", "digest", "mismatch", "mismatch-tagdigest", "mismatch-sha512", "mismatch-sha384", "noref", "malformed"),
 			Skip: rapid.IntRange(0, 9).Draw(rt, "skip") == 0}
 		record(rec, c)
 		if key, msg := check(c, rapid.Bool().Draw(rt, "skipper")); key != "" {
